@@ -212,5 +212,5 @@ func checkC12(tier, replay string) int {
 	ctx.Sample(map[string]any{"table": "x86_64", "name": "execve", "library": arch.X86_64.SyscallNames["execve"], "kernel_uapi": o.Tables["x86_64"]["kernel_uapi"]["execve"], "go_syscall": o.Tables["x86_64"]["go_syscall"]["execve"]})
 	ctx.Sample(map[string]any{"alias": "AMD64", "resolves_to": "x86_64"})
 	ctx.Assumptions = []string{"oracles.json was generated from this image's kernel headers and Go/x-sys sources by oracles/gen.py (provenance inside the file)", "a source that does not list a name says nothing about it"}
-	return ctx.Finish()
+	return finishOrReplay(ctx, replay)
 }
